@@ -441,9 +441,16 @@ class NameConverter(ast.NodeTransformer):
             self.no_inline
             or any(isinstance(arg, ast.Starred) for arg in node.args)
             or any(kw.arg is None for kw in node.keywords)
+            or any(
+                kw.arg in self.analysis.positional_required
+                or kw.arg in self.analysis.positional_optional
+                for kw in node.keywords
+            )
         ):
-            # The arguments are only known at run time (*args, **kwargs), or
-            # temporaries cannot be used: look the method up in a helper
+            # The arguments are only known at run time (*args, **kwargs),
+            # temporaries cannot be used, or a positional argument is given
+            # by name, as the entry point allows (the helper puts it back in
+            # its position): look the method up in a helper
             new_node = ast.Call(
                 func=ast.Name(id=self.call_mangled, ctx=ast.Load()),
                 args=[
